@@ -1,0 +1,36 @@
+//go:build verif
+
+// Contracts for govc (contract-based deductive verification, see /verif/DESIGN.md).
+// Comment-only file: it adds no code and is compiled only with -tags verif.
+
+package controllerv1
+
+// PromQL responses: one complete JSON object per series / sample, written with a
+// borrowed stream and handed to the response writer. When the object is handed
+// over it is a complete document, and the timestamp in it is the sample's
+// millisecond timestamp divided by 1000 as a real number (no integer division:
+// sub-second steps keep their fraction).
+//@ spec fn seriesOpen(s *jsoniter.Stream) bool = s.g_depth == 2 && s.g_kind[0] == 0 && s.g_state[0] == 2 && s.g_kind[1] == 1 && s.g_state[1] == 2
+//@ spec fn inLabels(s *jsoniter.Stream, j int) bool = seriesOpen(s) && s.g_kind[2] == 1 && (j == 0 ==> s.g_state[2] == 0) && (j != 0 ==> s.g_state[2] == 2)
+//@ spec fn inPoints(s *jsoniter.Stream, j int) bool = seriesOpen(s) && s.g_kind[2] == 2 && (j == 0 ==> s.g_state[2] == 0) && (j != 0 ==> s.g_state[2] == 2)
+
+//@ func writeMatrix [C15]
+//@   flag checks=-assert
+//@   at ReturnStream complete-document: jsDone(stream)
+//@   at ReturnStream every-point-once: stream.g_numCount == len(s.Points)
+//@   at ReturnStream timestamps-exact: forall k int :: 0 <= k && k < len(s.Points) ==> stream.g_nums[k] == real(s.Points[k].T) / 1000
+//@   loop 2:
+//@     invariant rangeindex >= -1 && inLabels(stream, rangeindex + 1) && stream.g_numCount == 0
+//@     modifies stream.g_state, stream.g_kind, stream.g_depth
+//@   loop 3:
+//@     invariant rangeindex >= -1 && rangeindex + 1 <= len(s.Points) && inPoints(stream, rangeindex + 1) && stream.g_numCount == rangeindex + 1
+//@     invariant forall k int :: 0 <= k && k <= rangeindex ==> stream.g_nums[k] == real(s.Points[k].T) / 1000
+//@     modifies stream.g_state, stream.g_kind, stream.g_depth, stream.g_nums, stream.g_numCount
+
+//@ func writeVector [C15]
+//@   flag checks=-assert
+//@   at ReturnStream complete-document: jsDone(stream)
+//@   at ReturnStream timestamp-exact: stream.g_numCount == 1 && stream.g_nums[0] == real(s.T) / 1000
+//@   loop 2:
+//@     invariant rangeindex >= -1 && inLabels(stream, rangeindex + 1) && stream.g_numCount == 0
+//@     modifies stream.g_state, stream.g_kind, stream.g_depth
